@@ -372,9 +372,15 @@ func (s *strictStub) UnmarshalJSON(data []byte) error {
 }
 
 func (fi *FuncInfo) argWrapper() func(reflect.Value) any {
-	strict := fi.strictFields && fi.Argument != nil && !fi.Argument.Implements(strictType)
 	names := fi.posNames // capture so the wrapper does not pin fi
 	array := len(names) != 0 && fi.allowArray
+
+	// An argument type with a DisallowUnknownFields method is decoded strictly
+	// by UnmarshalParams itself, but only if it is not hidden behind the array
+	// stub; in that case the strict stub has to stand in for it.
+	selfStrict := fi.Argument != nil && (fi.Argument.Implements(strictType) ||
+		reflect.PointerTo(fi.Argument).Implements(strictType))
+	strict := fi.Argument != nil && (fi.strictFields && !selfStrict || selfStrict && array)
 	switch {
 	case strict && array:
 		return func(v reflect.Value) any {
